@@ -127,13 +127,19 @@ Lemma monotone_sneddon E R nu cp bl d1 d2 :
   m_sneddon_spher_approx E R nu cp bl d1 <= m_sneddon_spher_approx E R nu cp bl d2.
 Proof.
   intros HE Hn HR Hd Hdepth. unfold m_sneddon_spher_approx. cbv zeta.
-  assert (Haa : 0 <= 4 / 3 * E / (1 - nu ^ 2) * sqrt R).
-  { apply Rmult_le_pos; [|apply sqrt_pos]. unfold Rdiv. apply Rmult_le_pos; [lra|].
-    left. apply Rinv_0_lt_compat. exact Hn. }
-  apply Rplus_le_compat_r. apply Rmult_le_compat_l; [exact Haa|].
+  apply Rplus_le_compat_r. apply Rmult_le_compat_l.
+  { (* the prefactor, however grouped *)
+    unfold Rdiv. repeat (apply Rmult_le_pos);
+      first [lra | apply sqrt_pos | assumption | left; apply Rinv_0_lt_compat; assumption]. }
+  (* the series, however its terms are ordered *)
   destruct (Rlt_dec 0 (cp - d1)) as [H1|H1]; destruct (Rlt_dec 0 (cp - d2)) as [H2|H2]; try lra.
-  - apply (series_part_mono R (cp - d1) (cp - d2)); lra.
-  - apply (series_part_nonneg R (cp - d2)); lra.
+  - match goal with |- ?L <= ?Rr =>
+      replace L with (series_part R (cp - d1)) by (unfold series_part, Rdiv; ring);
+      replace Rr with (series_part R (cp - d2)) by (unfold series_part, Rdiv; ring) end.
+    apply series_part_mono; lra.
+  - match goal with |- _ <= ?Rr =>
+      replace Rr with (series_part R (cp - d2)) by (unfold series_part, Rdiv; ring) end.
+    apply series_part_nonneg; lra.
 Qed.
 
 (* continuity at contact: within depth r <= min(R, 1) of the contact point the
@@ -190,16 +196,17 @@ Lemma contact_sneddon E R nu cp bl delta :
   <= Rabs (4 / 3 * E / (1 - nu ^ 2) * sqrt R) * (cp - delta).
 Proof.
   intros HR Hd HdR. unfold m_sneddon_spher_approx. cbv zeta.
-  set (aa := 4 / 3 * E / (1 - nu ^ 2) * sqrt R).
   destruct (Rlt_dec 0 (cp - delta)) as [Hc|Hc].
-  - match goal with |- Rabs (aa * ?S + bl - bl) <= _ =>
-      replace (aa * S + bl - bl) with (aa * series_part R (cp - delta))
-        by (unfold series_part; ring) end.
+  - (* prefactor and series of the source, however grouped / ordered *)
+    match goal with |- Rabs (?a * ?S + bl - bl) <= Rabs ?b * _ =>
+      replace (a * S + bl - bl) with (b * series_part R (cp - delta))
+        by (unfold series_part, Rdiv; ring) end.
     rewrite Rabs_mult. apply Rmult_le_compat_l; [apply Rabs_pos|].
     rewrite Rabs_right by (apply Rle_ge; apply series_part_nonneg; lra).
     eapply Rle_trans; [apply series_part_le; lra | apply ppow32_le1; lra].
-  - replace (aa * 0 + bl - bl) with 0 by ring. rewrite Rabs_R0.
-    apply Rmult_le_pos; [apply Rabs_pos | lra].
+  - match goal with |- Rabs (?a * 0 + bl - bl) <= _ =>
+      replace (a * 0 + bl - bl) with 0 by ring end.
+    rewrite Rabs_R0. apply Rmult_le_pos; [apply Rabs_pos | lra].
 Qed.
 
 (* ---- layered model ------------------------------------------------------------- *)
